@@ -306,22 +306,29 @@ def main():
         rows = {}
         failed = {}
         notes = []
+        undecided = []          # a layer that cannot decide does not hide a violation found by another layer
         if table.uses_verus(pid):
-            v = verus_layer(repo, scratch, seed, args.tier, pid)
-            res['verus'] = v
-            rows.update(v['rows'])
-            failed.update(v['failed'])
+            try:
+                v = verus_layer(repo, scratch, seed, args.tier, pid)
+                res['verus'] = v
+                rows.update(v['rows'])
+                failed.update(v['failed'])
+            except Undecided as e:
+                undecided.append('verus layer: %s' % e)
         krows = table.kani_rows(pid, args.tier)
         if krows:
-            k = kani_run.run(repo, scratch, krows, seed, args.tier)
-            res['kani'] = k
-            rows.update(k['rows'])
-            failed.update(k['failed'])
+            try:
+                k = kani_run.run(snapshot(os.path.join(scratch, 'k')), scratch, krows, seed, args.tier)
+                res['kani'] = k
+                rows.update(k['rows'])
+                failed.update(k['failed'])
+            except Undecided as e:
+                undecided.append('kani layer: %s' % e)
         irows, ifailed = table.inventory_rows(pid, repo, res)
         rows.update(irows); failed.update(ifailed)
         mine = {r: v for r, v in rows.items() if pid in v.get('serves', [])}
         if not mine:
-            raise Undecided('no obligation serves %s (obligation count is zero)' % pid)
+            raise Undecided('no obligation serves %s (obligation count is zero): %s' % (pid, '; '.join(undecided)))
         myfailed = {r: failed[r] for r in failed if r in mine}
         known = [k for k in load_known() if k.get('property') == pid]
         violations, knownhits = [], []
@@ -333,6 +340,21 @@ def main():
                 violations.append((r, msgs))
         OUT = os.environ.get('VERIF_OUT_DIR', VERIF)      # (self-test runs redirect evidence / replays; registered commands never set this)
         os.makedirs(os.path.join(OUT, 'replays'), exist_ok=True)
+        # triage (DESIGN 8): a failed Verus row asks its Kani twin (the same function, in place) for a concrete input
+        want = {}
+        for (r, msgs) in violations:
+            tw = table.replay_row(r)
+            if tw and tw in table.K and not (res.get('kani', {}).get('rows', {}).get(tw)):
+                want[tw] = table.K[tw]
+        if want:
+            try:
+                repo2 = snapshot(os.path.join(scratch, 'twin'))
+                k2 = kani_run.run(repo2, scratch, want, seed, args.tier)
+                res.setdefault('kani', dict(cex={}, rows={}, failed={}, per={}, n=0, n_ok=0, wall=0, cmd=''))
+                res['kani']['cex'].update(k2['cex'])
+                res['kani'].setdefault('twin_runs', {}).update({t: (t in k2['failed']) for t in want})
+            except Undecided as e:
+                log('twin run undecided: %s' % e)
         for (r, k) in knownhits:
             print('KNOWN-FINDING: property=%s %s' % (pid, k['text']))
         for (r, msgs) in violations:
@@ -351,12 +373,22 @@ def main():
                     cex = res['kani']['cex'][twin]
                 if cex:
                     replay['counterexample'] = cex
+                    replay['counterexample_from'] = 'Kani twin row %s (the same function on the real code)' % twin
+                    replay['replay_cmd'] = 'bin/replay ' + rp
                 else:
                     suffix = ' no-failing-input-found'
             json.dump(replay, open(rp, 'w'), indent=1)
             print('VIOLATION property=%s replay=%s row=%s%s' % (pid, rp, r, suffix))
-        write_evidence(pid, args.tier, seed, mine, myfailed, knownhits, violations, res, time.time() - t0)
-        rc = 1 if violations else 0
+        if violations:
+            rc = 1
+            for u in undecided:
+                log('NOTE (undecided part, property=%s): %s' % (pid, u[:600]))
+            write_evidence(pid, args.tier, seed, mine, myfailed, knownhits, violations, res, time.time() - t0)
+        elif undecided:
+            raise Undecided('; '.join(undecided))
+        else:
+            write_evidence(pid, args.tier, seed, mine, myfailed, knownhits, violations, res, time.time() - t0)
+            rc = 0
     except Undecided as e:
         log('UNDECIDED property=%s: %s' % (pid, e))
         rc = 2
